@@ -95,7 +95,8 @@ func rulePosCodec(r *Report) {
 		}
 		_ = okDec
 	}
-	r.Min(rule, 6)
+	ruleLimitDivision(r, rule)
+	r.Min(rule, 8)
 }
 
 func typeQualifierOf(alias string) string {
